@@ -59,6 +59,21 @@ def one(case, pl):
                 cache[s] = tuple(a)
             return cache[s]
         mdp._actions = permuted
+    if case.get("via_from_matrices"):
+        # the array constructor, optionally with integer-typed reward / absorbing arrays (a user's hand-made tables)
+        import numpy as np
+        from msdm.core.mdp.tabularmdp import TabularMarkovDecisionProcess
+        R = np.array(mdp.reward_matrix)
+        if case["via_from_matrices"].get("int_rewards") and np.all(R == np.round(R)):
+            R = R.astype(np.int64)
+        ab = np.array(mdp.absorbing_state_vec)
+        if case["via_from_matrices"].get("int_absorbing"):
+            ab = ab.astype(np.int64)
+        mdp = TabularMarkovDecisionProcess.from_matrices(
+            state_list=list(mdp.state_list), action_list=list(mdp.action_list),
+            initial_state_vec=np.array(mdp.initial_state_vec), transition_matrix=np.array(mdp.transition_matrix),
+            action_matrix=np.array(mdp.action_matrix), reward_matrix=R, absorbing_state_vec=ab,
+            discount_rate=mdp.discount_rate)
     if case.get("actions_shared_list") and len({tuple(a) for a in case["mdp"]["actions"]}) == 1:
         shared = list(case["mdp"]["actions"][0])      # ONE list object handed out for every state
         mdp._actions = lambda s, _l=shared: _l
